@@ -279,6 +279,19 @@ def enum_special(tier):
     yield {"reactions": [[["GRAIN0", "e-"], ["GRAIN0-"]], [["GRAIN0-", "H+"], ["GRAIN0", "H"]]], "family": "SP"}
     yield {"reactions": [[["H", "H"], ["H2"]], [["H", "H"], ["H2"]], [["H", "H"], ["H2"]]], "family": "SP"}
     yield {"reactions": [[["H", "CR"], ["H+", "e-"]], [["H+", "E"], ["H", "PHOTON"]]], "required": ["He"], "family": "SP"}
+    # one network beyond the single-digit sizes: 15 species, 19 reactions (k[10]..k[18], slots >= 10), the electron in
+    # ten reactions (statements long enough to be wrapped over several lines), a sink without products
+    yield {"reactions": BIG, "family": "SP"}
+    yield {"reactions": BIG + [[["CO"], []]], "cooling": ["CIC_HI", "RC_HII"], "required": ["Ar"], "family": "SP"}
+
+
+BIG = [
+    [["H", "e-"], ["H+", "e-", "e-"]], [["H+", "e-"], ["H"]], [["He", "e-"], ["He+", "e-", "e-"]], [["He+", "e-"], ["He"]],
+    [["C", "e-"], ["C+", "e-", "e-"]], [["C+", "e-"], ["C"]], [["O", "e-"], ["O+", "e-", "e-"]], [["O+", "e-"], ["O"]],
+    [["H2", "e-"], ["H", "H", "e-"]], [["H", "H"], ["H2"]], [["C", "O"], ["CO"]], [["CO", "He+"], ["C+", "O", "He"]],
+    [["O", "H"], ["OH"]], [["OH", "H"], ["H2O"]], [["H2O", "C+"], ["HCO+", "H"]], [["HCO+", "e-"], ["CO", "H"]],
+    [["H2", "He+"], ["H+", "H", "He"]], [["OH", "C+"], ["CO+", "H"]], [["CO+", "H"], ["CO", "H+"]],
+]
 
 
 # bundled / test files for S4 -------------------------------------------------
